@@ -199,6 +199,7 @@ Fixpoint aattr_items (b : list N) : list N :=
   | _ => []
   end.
 
+(* aa_raw: the octets AttrValue::parse consumed (type code, length, payload) *)
 Record aattribute := { aa_set : N; aa_var : N; aa_value : aattr_value; aa_raw : list N }.
 
 (* ---- free-format objects (g70): lengths, offsets and string well-formedness only ---------------- *)
@@ -361,7 +362,7 @@ Definition aparse_prefixed (o : aopts) (g v q psize count : N) (l : list N) : ar
                else match aparse_attr_value l1 with
                     | AOk (val, r) =>
                         AOk (PyAttr {| aa_set := idx; aa_var := v; aa_value := val;
-                                       aa_raw := firstn (length l - length r) l |}, r)
+                                       aa_raw := firstn (length l1 - length r) l1 |}, r)
                     | AErr e => AErr (OEBadAttr e)
                     end
            end
